@@ -186,6 +186,7 @@ class DrvDomain(Domain):
         self.throws = None
         self.in_solve = False
         self.levels_built = None
+        self.alias = {}  # (level, accessor) -> accessor whose storage it returns (Level's accessors decide; identity if absent)
         self.level_ops = None  # level -> set of initialised operators (None: not tracked)
         self.policy = None  # fixed outcome for non-concrete conditions (no forking) or None
         self.nofork_pred = None
@@ -444,6 +445,9 @@ class DrvDomain(Domain):
                 return not a.nonnull
         if isinstance(b, Ptr) and a is None:
             return self.abs_binop(op, b, a, e, fr)
+        if (is_scalar_term(a) and a[1] == "N" or isinstance(a, Opaque) and "numberOfNodes" in str(a.tag)) and num(b) and b == 0 and op in ("<", "<=", ">", ">=", "==", "!="):
+            # a grid has at least one node
+            return {"<": False, "<=": False, ">": True, ">=": True, "==": False, "!=": True}[op]
         if isinstance(a, Opaque) or isinstance(b, Opaque):
             if op in ("<", "<=", ">", ">=", "==", "!="):
                 return self.choose(S(op, a, b), e, fr)
@@ -635,7 +639,7 @@ class DrvDomain(Domain):
         if isinstance(this, LevelRef):
             m = mname
             if m in WHICH:
-                return BufRef(this.l, m)
+                return BufRef(this.l, self.alias.get((this.l, m), m))
             if m == "level_depth":
                 return this.l
             if m == "grid":
@@ -646,6 +650,8 @@ class DrvDomain(Domain):
                 return self.level_op(callee, this, [it.rvalue(a, fr) for a in args], site)
             if not m.startswith("initialize"):
                 raise AnalysisBroken("Level method %s not modelled at %s" % (callee, site))
+        if isinstance(this, Handle) and this.kind == "vec" and mname == "size" and not args:
+            return this.size
         if isinstance(this, Handle) and this.kind == "grid":
             m = mname
             if m == "numberOfNodes":
@@ -837,22 +843,49 @@ class DrvDomain(Domain):
         self.interp.call_function(ctor, obj, vals, None)
         fieldmap = {"rhs": "rhs_", "solution": "solution_", "residual": "residual_", "error_correction": "error_correction_"}
         for w, fname in fieldmap.items():
-            acc = [f for f in self.prog.fns("Level::" + w) if not f.get("constm")]
-            ok = False
-            for f in acc:
-                b = f["body"]["s"]
-                if len(b) == 1 and b[0]["k"] == "Return" and b[0]["e"]["k"] == "Field" and b[0]["e"]["field"] == fname:
-                    ok = True
-            if not ok:
-                raise AnalysisBroken("accessor Level::%s() no longer returns member %s" % (w, fname))
             v = obj.f.get(fname)
             v = v.get() if v is not None else None
             if not (isinstance(v, Handle) and v.kind == "vec"):
                 raise AnalysisBroken("Level::Level does not construct %s as a Vector (got %r)" % (fname, v))
             self.bufs[(depth, w)] = {"alloc": v.size != 0, "val": LC.zero()}
+        # which storage each accessor hands out on this level in this mode: the accessor is interpreted on the object the
+        # constructor built.  Two accessors that return the same member share one buffer in everything that follows
+        for w, fname in fieldmap.items():
+            tgt = {}
+            for f in self.prog.fns("Level::" + w):
+                if f["params"]:
+                    continue
+                n0 = len(self.choice_log)
+                r = self.interp.call_function(f, obj, [], None)
+                if len(self.choice_log) != n0:
+                    raise AnalysisBroken("accessor Level::%s() branches on a value the analysis does not know: %r" % (w, self.choice_log[n0:]))
+                rv = r.get() if isinstance(r, Cell) else r
+                hit = [w2 for w2, f2 in fieldmap.items() if obj.f.get(f2) is not None and obj.f[f2].get() is rv]
+                if len(hit) != 1:
+                    raise AnalysisBroken("accessor Level::%s() returns something that is not one of the four work vectors of its level" % w)
+                tgt["const" if f.get("constm") else "mutable"] = hit[0]
+            if "mutable" not in tgt:
+                raise AnalysisBroken("anchor vanished: accessor Level::%s()" % w)
+            if len(set(tgt.values())) != 1:
+                self.event("accessor-mismatch", site, "on level %s the const and the non-const overload of Level::%s() return different members (%s)" % (depth, w, tgt))
+            if tgt["mutable"] != w:
+                self.alias[(depth, w)] = tgt["mutable"]
         self.levels_built += 1
         self.field_writes.add("levels_")
         return None
+
+    def derive_layout(self, extrapolation, fmg):
+        """storage layout of the level hierarchy as Level's constructor and accessors define it (which vectors exist, which
+        accessor hands out which member), for a state made by make_state: the values the caller put into the buffers stay"""
+        saved = {k: v["val"] for k, v in self.bufs.items()}
+        self.levels_built = 0
+        self.alias = {}
+        for l in range(self.L):
+            self.build_level([l, Handle("grid", l=l), Handle("cache", l=l), extrapolation, bool(fmg)], None)
+        for k, v in saved.items():
+            self.bufs[k]["val"] = v
+        fw = self.field_writes
+        fw.discard("levels_")
 
     def need_op(self, l, op, site):
         if self.level_ops is not None and op not in self.level_ops.get(l, ()):
